@@ -583,7 +583,7 @@ def scripts(alphabet, maxlen):
 
 
 def BOUNDS(tier):
-    return {'quick': {'processes': 2, 'ops_per_process': 2}, 'thorough': {'processes': '2-3', 'ops_per_process': 3}}[tier]
+    return {'quick': {'processes': 2, 'ops_per_process': 2}, 'thorough': {'processes': 2, 'ops_per_process': '3 and 2; every program also embedded'}}[tier]
 
 
 def cases(tier):
@@ -607,7 +607,7 @@ def cases(tier):
     out = []
     for fam, (alpha, untils) in fams.items():
         ss = scripts(alpha, L)
-        second = ss if thorough else scripts(alpha, 2)
+        second = scripts(alpha, 2)
         for s0, s1 in itertools.product(ss, second):
             p0 = [[('p1' if x == 'OTHER' else x) for x in op] for op in s0]
             p1 = [[('p0' if x == 'OTHER' else x) for x in op] for op in s1]
